@@ -111,7 +111,9 @@ class Stubs:
     def __init__(self, c: S.Ctx, cb_tag=0, with_first_row_clause=True, assume_columns=True):
         self.c = c
         self.cb_calls = []       # (pts9 terms, F rows terms, pos0 array)
+        self.cb_norms = []       # |third - first point| symbol of each call (first-row clause)
         self.euclid = []         # (a terms, b terms, d symbol)
+        self.rands = []
         self.cb_tag = cb_tag
         self.with_first_row = with_first_row_clause
         self.assume_columns = assume_columns
@@ -131,6 +133,7 @@ class Stubs:
             # consequence of row-orthonormality (lemma 'rows orthonormal => columns orthonormal', proved once per run)
             for h in columns_orthonormal(F):
                 c.assume(h)
+        r = None
         if self.with_first_row:
             # v1 is the unit vector from the first to the third point:  v1 * |d| = d  with |d| > 0
             d = [pts9[6 + k] - pts9[k] for k in range(3)]
@@ -139,6 +142,7 @@ class Stubs:
             c.assume(r * r == spec.norm2(d))
             for k in range(3):
                 c.assume(F[0][k] * r == d[k])
+        self.cb_norms.append(r)
         self.cb_calls.append((pts9, F, p0))
         rows = []
         for r_ in range(3):
@@ -147,6 +151,23 @@ class Stubs:
                 a[k] = S.SymReal(F[r_][k])
             rows.append(a)
         return tuple(rows), p0
+
+    def rand(self, *shape):
+        """numpy.random.rand by contract: independent values in [0, 1); A7: not all zero (measure-zero event)"""
+        c = self.c
+        if len(shape) != 1:
+            raise S.SymError("np.random.rand shape")
+        v = np.empty(shape[0], dtype=object)
+        ts = []
+        for i in range(shape[0]):
+            u = c.fresh("rand")
+            c.assume(u >= 0)
+            c.assume(u < 1)
+            ts.append(u)
+            v[i] = S.SymReal(u)
+        c.assume(z3.Or(*[u != 0 for u in ts]))
+        self.rands.append(ts)
+        return v
 
     def euclidean(self, a, b):
         c = self.c
@@ -160,7 +181,12 @@ class Stubs:
     @contextlib.contextmanager
     def installed(self):
         import gaddlemaps._exchage_map as X
-        with S.patched(X, calcule_base=self.calcule_base, euclidean=self.euclidean):
+        class _R:
+            rand = staticmethod(self.rand)
+
+            def __getattr__(self_, n):
+                raise S.SymError(f"np.random.{n} not modelled")
+        with S.patched(X, calcule_base=self.calcule_base, euclidean=self.euclidean, np=S.NumpyFacade(extra={"random": _R()})):
             yield
 
 
